@@ -70,10 +70,7 @@ def positive (s : F) : Bool :=
   | some z => lt z s
   | none => false
 
-def nonneg (s : F) : Bool :=
-  match (ofInt 0 : Option F) with
-  | some z => le z s
-  | none => false
+def nonneg (s : F) : Bool := isNonneg s
 
 /-- grid index of a value: `int(round(value / scale))` (`ScaledInteger.__call__`, `export_value`, `export_datatype`) -/
 def gridIndex (scale x : F) : Option Int := round (div x scale)
